@@ -72,7 +72,7 @@ def Deribit.c04Pos : Position :=
     buyAmt := 2, avgSell := 0, sellAmt := 0 }
 def Deribit.c04State : DState :=
   { cash := 1 / 10, positions := [("ETH-22SEP23-1650-C", Deribit.c04Pos)], book := [Deribit.c04Instr, Deribit.c04Closed],
-    wallet := [("ETH", 1)], allowNeg := false, actions := [], cache := none, flagOpen := true, now := 360, price := 1650 }
+    wallet := [("ETH", 1)], allowNeg := false, actions := [], cache := none, flagOpen := true, now := 360, price := 1650, priceDec := false }
 def Deribit.c04Req (n : String) (a : Rat) (p m : Option Rat := none) : Req :=
   { name := n, amount := a, priceTok := p, priceUsd := none, mult := m }
 
